@@ -175,6 +175,7 @@ fn main() {
         let mode = c["mode"].as_str().unwrap_or("load");
         match mode {
             "load" => {
+                drv_common::apply_pre_copy(&c);
                 let dir = c["dir"].as_str().unwrap();
                 let skip_icu = c["skip_icu"].as_bool().unwrap_or(false);
                 let cfg = do_config(dir);
